@@ -187,7 +187,7 @@ def parse_tlc_output(path):
                 finished = True
             elif ln.startswith("Error: Invariant ") and "is violated" in ln:
                 violation = ln.split("Invariant ")[1].split(" is violated")[0]
-            elif ln.startswith("Error: Temporal properties were violated") or "Error: Action property" in ln:
+            elif ln.startswith("Error: Temporal propert") or "Error: Action property" in ln:
                 violation = violation or "temporal"
             elif ln.startswith("Error: Deadlock reached"):
                 violation = violation or "deadlock"
